@@ -104,6 +104,18 @@ def short_checksum(hrp, k, const):
     return d
 
 
+def convert5to8(syms):
+    acc = bits = 0
+    out = []
+    for v in syms:
+        acc = (acc << 5) | v
+        bits += 5
+        while bits >= 8:
+            bits -= 8
+            out.append((acc >> bits) & 0xff)
+    return bytes(out)
+
+
 def addr(hrp, ver, prog):
     return craft(hrp, [ver] + to5(prog), 1 if ver == 0 else M)
 
@@ -136,6 +148,30 @@ def gen_inputs(ctx):
                         ("bc", 16, 2), ("bc", 2, 40), ("bc", 5, 16), ("bcrt", 0, 20)):
         for _ in range(1 if q else 4):
             bases.append((hrp, addr(hrp, ver, rb(n))))
+    # addresses WITHOUT any cased character (prefix of digits / punctuation, every data symbol and the checksum a digit)
+    # and without any digit: "mixed case" is about letters only; such strings are valid in both spellings.  Searched:
+    # the checksum comes out all-digits for about one candidate in two thousand.
+    DIG = [i for i, ch in enumerate(CHARSET) if ch.isdigit()]
+    LET = [i for i, ch in enumerate(CHARSET) if ch.isalpha()]
+    found_caseless = 0
+    for hrp_, pool, cls in (("1", DIG, "no-letters"), ("42", DIG, "no-letters"), ("-_-", DIG, "no-letters"), ("bc", LET, "no-digits")):
+        tries = 0
+        got = 0
+        while got < (1 if q else 3) and tries < 60000:
+            tries += 1
+            ver = rng.choice([v for v in range(1, 17) if v in pool] or [0])
+            nsym = rng.choice([8, 16, 32])                       # 5, 10, 20 bytes: no padding bits
+            data = [ver] + [rng.choice(pool) for _ in range(nsym)]
+            s_ = craft(hrp_, data, M if ver != 0 else 1)
+            tail = s_[len(hrp_) + 1:]
+            if all((c.isdigit() if cls == "no-letters" else c.isalpha()) for c in tail):
+                got += 1
+                found_caseless += 1
+                prog = convert5to8(data[1:])
+                out.append(("SegwitDec", {"hrp": T(hrp_), "addr": T(s_)}, ("dec-caseless", cls)))
+                out.append(("SegwitDec", {"hrp": T(hrp_.upper()), "addr": T(s_.upper())}, ("dec-caseless-upper", cls)))
+                out.append(("SegwitEnc", {"hrp": T(hrp_), "ver": ver, "prog": B(prog)}, ("enc-caseless", cls)))
+    ctx.notes["caseless_addresses_found"] = found_caseless
     # the expected prefix against the address's own prefix, in every relation: equal, proper prefix (down to the
     # empty one), extension, suffix, same length but different, a prefix that swallows the separator or data symbols
     for real in ("bc", "tb", "bcrt", "b", "a1b", "tbs", "bc1q"):
